@@ -38,6 +38,41 @@ func (e2Engine) Gen(prop string, seed int64, tier string) *Plan {
 	p.Cfg["named"] = r.IntN(2) // replicator for named collections / all collections
 	p.Cfg["sign"] = pick(r, []int{0, 0, 1})
 	p.Cfg["mode"] = pick(r, []int{0, 0, 0, 1}) // 0 replicator A->B, 1 B subscribed to the collection (pubsub)
+	if p.Cfg["mode"] == 0 && chance(r, 40) {
+		// structured plan: repeated outage cycles with a write racing the retry of the same document
+		p.Cfg["docs"] = 1 + r.IntN(2)
+		p.Steps = append(p.Steps, Step{K: "setrep"}, Step{K: "write", A: 0, C: r.IntN(64), D: r.IntN(64)}, Step{K: "net", A: 3})
+		if p.Cfg["docs"] == 2 {
+			p.Steps = append(p.Steps, Step{K: "write", A: 0, C: r.IntN(64), D: r.IntN(64)}, Step{K: "net", A: 3})
+		}
+		cycles := 2 + r.IntN(3)
+		for c := 0; c < cycles; c++ {
+			outage := pick(r, []string{"down", "down", "crash"})
+			p.Steps = append(p.Steps, Step{K: outage})
+			for w := 0; w < 1+r.IntN(2); w++ {
+				p.Steps = append(p.Steps, Step{K: "write", A: 1, B: r.IntN(2), C: r.IntN(64), D: r.IntN(64)})
+			}
+			if chance(r, 50) {
+				p.Steps = append(p.Steps, Step{K: "tick", A: 3}) // a failed retry pass during the outage
+			}
+			if outage == "crash" {
+				p.Steps = append(p.Steps, Step{K: "recover"})
+			} else {
+				p.Steps = append(p.Steps, Step{K: "up"})
+			}
+			p.Steps = append(p.Steps, Step{K: "tick", A: 3}) // the retry pass starts; its pushes are pending
+			if chance(r, 70) {
+				p.Steps = append(p.Steps, Step{K: "write", A: 1, B: r.IntN(2), C: r.IntN(64), D: r.IntN(64)}) // racing write
+			}
+			if chance(r, 30) {
+				p.Steps = append(p.Steps, Step{K: "patch"})
+			}
+			p.Steps = append(p.Steps, Step{K: "net", A: pick(r, []int{3, 3, 4, 0})}, Step{K: "tick", A: r.IntN(6)}, Step{K: "net", A: 3}, Step{K: "tick", A: 3}, Step{K: "net", A: 3})
+		}
+		p.Steps = append(p.Steps, Step{K: "settle"})
+		p.Cfg["template"] = 1
+		return p
+	}
 	n := 6 + r.IntN(30)
 	repAt := 0
 	if chance(r, 30) {
